@@ -370,20 +370,20 @@ fn caps() -> Vec<Cap> {
     ]
 }
 
-fn variant_of(registry: &Registry, enum_name: &str, variant: &str, payload: Shape) -> Val {
+pub(crate) fn variant_of(registry: &Registry, enum_name: &str, variant: &str, payload: Shape) -> Val {
     let Some(ContainerFormat::Enum(vs)) = registry.get(enum_name) else { mc_kit::machinery_error(&format!("{enum_name} is not an enum in the registry")) };
     let Some((i, _)) = vs.iter().find(|(_, v)| v.name == variant) else { mc_kit::machinery_error(&format!("{enum_name} has no variant {variant} in the registry")) };
     Val::Variant(enum_name.to_string(), *i, variant.to_string(), payload)
 }
 
-fn batch_of(registry: &Registry, id: u32, effect: &str, op: &Val) -> Val {
+pub(crate) fn batch_of(registry: &Registry, id: u32, effect: &str, op: &Val) -> Val {
     Val::Seq(vec![Val::Struct(
         "Request".into(),
         Shape::Struct(vec![("id".into(), Val::UInt(32, id as u128)), ("effect".into(), variant_of(registry, "Effect", effect, Shape::NewType(Box::new(op.clone()))))]),
     )])
 }
 
-fn view_of(registry: &Registry, renders: u32, field: Option<(&str, &Val)>) -> Val {
+pub(crate) fn view_of(registry: &Registry, renders: u32, field: Option<(&str, &Val)>) -> Val {
     let Some(ContainerFormat::Struct(fs)) = registry.get("ViewModel") else { mc_kit::machinery_error("ViewModel is not a struct in the registry") };
     let fields = fs
         .iter()
@@ -1046,6 +1046,20 @@ pub fn run(tier: Tier) -> i32 {
     }
     let typegen_info = Json::Object(tg.info);
 
+    // large values through the real bridges
+    let lg = crate::c10_large::run(&registry, tier);
+    states += lg.states;
+    transitions += lg.transitions;
+    nontrivial += lg.states;
+    for (k, n) in lg.classes {
+        *classes.entry(k).or_insert(0) += n;
+    }
+    samples.extend(lg.samples);
+    for f in lg.found {
+        rep.violation(Violation { key: f.key, what: f.what, replay: f.replay, size: f.size });
+    }
+    let large_info = Json::Object(lg.info);
+
     for (_, (size, f, replay, count)) in smallest {
         let mut replay = replay;
         replay["values_with_this_finding"] = json!(count);
@@ -1093,6 +1107,7 @@ pub fn run(tier: Tier) -> i32 {
         "flow_cases": flow_cases.len(),
         "flow_cases_with_disagreement": flow_bad,
         "generator_entry_points (java and swift into a directory under std::env::temp_dir(), removed afterwards; typescript needs pnpm and is not run)": typegen_info,
+        "large_value_family": large_info,
         "rust_origin_values": rvals.len(),
         "rust_origin_outcomes": rust_classes,
         "hash_collisions_or_repeats": total_hashes as u64 - distinct,
@@ -1174,6 +1189,19 @@ pub fn replay(path: &str) -> i32 {
             let r = run_flow(&ctx, &c, &op, out.as_ref(), w);
             println!("  step 3: {} bridge calls, emitted bytes compared with the schema encoding", r.steps);
             print(&r.findings)
+        }
+        Some("large") => {
+            let lg = crate::c10_large::run(&registry, tier);
+            for (k, n) in &lg.classes {
+                println!("  step: {k} ({n})");
+            }
+            for f in &lg.found {
+                println!("  VIOLATION key={}: {}", f.key, f.what);
+            }
+            if lg.found.is_empty() {
+                println!("  ok: every large value passes through both bridges unaltered");
+            }
+            i32::from(!lg.found.is_empty())
         }
         Some("typegen") => {
             let tg = crate::c10_typegen::run(&registry);
